@@ -696,6 +696,14 @@ func (u *connectStreamingUnmarshaler) Unmarshal(message any) *Error {
 	if err := json.Unmarshal(env.Data.Bytes(), &end); err != nil {
 		return errorf(CodeInternal, "unmarshal end stream message: %w", err)
 	}
+	for name, value := range end.Trailer {
+		// Peers may send metadata keys in any case: make lookups behave like
+		// HTTP headers.
+		if canonical := http.CanonicalHeaderKey(name); canonical != name {
+			delete(end.Trailer, name)
+			end.Trailer[canonical] = append(end.Trailer[canonical], value...)
+		}
+	}
 	u.trailer = end.Trailer
 	u.endStreamErr = (*Error)(end.Error)
 	return errSpecialEnvelope
